@@ -195,17 +195,22 @@ func (d *DefaultClientDispatcher) SendRequest(req RequestBundle) error {
 	if d.network == nil {
 		return fmt.Errorf("cannot SendRequest, no network client was set")
 	}
+	// Accepting the request and Stop exclude each other: a request pushed after Stop (by a caller that saw the
+	// dispatcher running a moment earlier) would survive in the queue and go out in the next session.
+	d.mutex.RLock()
+	defer d.mutex.RUnlock()
+	if d.requestChannel == nil {
+		return fmt.Errorf("cannot send request %v, the dispatcher is not running", req.Call.UniqueId)
+	}
 	if err := d.requestQueue.Push(req); err != nil {
 		return err
 	}
 	// Wake up the message pump. A wake-up that is waiting already covers this request as well: blocking here,
 	// with the read lock held, deadlocks against the pump as soon as Pause, Resume or Stop wait for the lock.
-	d.mutex.RLock()
 	select {
 	case d.requestChannel <- true:
 	default:
 	}
-	d.mutex.RUnlock()
 	return nil
 }
 
